@@ -607,7 +607,7 @@ def _has_quant(e):
 PY_BUILTINS = {'len', 'range', 'enumerate', 'zip', 'sorted', 'list', 'tuple', 'set', 'dict', 'max', 'min', 'abs',
                'round', 'float', 'int', 'str', 'isinstance', 'print', 'Exception', 'ValueError', 'reversed',
                'sum', 'any', 'all', 'hasattr', 'bool', 'IndexError', 'KeyError', 'AttributeError', 'open',
-               'AssertionError', 'TypeError'}
+               'AssertionError', 'TypeError', 'getattr', 'setattr'}
 
 
 from .execctx import ExecCtx  # noqa: E402  (circular by design)
